@@ -252,3 +252,29 @@ NOTES = (
     "analogues are used (lockset monitor, forced pre-emption, stack sampling). Exit codes: 0 held on everything explored, 1 VIOLATION, "
     "3 inconclusive (never a VIOLATION line). known_findings.json lists genuine defects by mechanism."
 )
+
+
+# additions of round 4 (appended to the texts above by mkmanifest)
+EXTRA_TEXT = {
+    "C03": "; the selection workload (ids of reused functions, tags incl. substrings / id-spelled ones, references, tuples) also runs here",
+    "C04": "; nodes are declared in every documented form (decorator / xn(f, **options) call form); 12% of the cases schedule a DAG "
+           "obtained through compose(..., max_concurrency=k)",
+    "C05": "; decorator-level tags and configuration BY TAG (a tag wins over an equally spelled node id)",
+    "C06": "; plus the tie-free max_concurrency=1 order workload of C07 (debug nodes re-attached, composed, re-configured, retried)",
+    "C07": "; signed priorities, partial re-configurations followed by a second one",
+    "C08": "; executor selections followed by whole calls on one object",
+    "C09": "; setup() / executor.setup() histories: a setup operation that returns normally has run its selection",
+    "C11": "; executor(T).setup() in both flavours, tag aliases, 13 x 2 illegal setup-dependency variants",
+    "C12": "; functions reused at several sites with prefix-related names (ids f<<k>> as aliases), tuples of aliases",
+    "C13": "; cache_deps_of executors are an execution mode too; a rejected legal DAG is a verdict",
+    "C14": "; identification clause per node kind (job c14_loc): one statement per line, every node in turn fails (plain / operator / "
+           "reflected operator / unary / and_ or_ not_ / method / nested) and the exception must name that node, its exact file:line "
+           "and carry the injected exception (with one, several or no args) as cause",
+    "C15": "; dag.max_concurrency must stay what the user configured last",
+    "C16": "; the shared DAG of the build-overlap workload may be an AsyncDAG",
+    "C17": "; capacity phase: more concurrent awaits than the loop's default executor has workers, all inside their node together",
+    "C18": "; defaulted DAG input omitted by the restart when the file holds it",
+    "C19": "; tags spelled like another node's id",
+    "C01": "; identity-sensitive uncopyable arguments and constants, constants whose truthiness changes between description and call, "
+           "tuple-keyed tables, inner DAGs sharing one __name__",
+}
